@@ -65,8 +65,12 @@ JwkMods == {"none", "off_curve", "x_short", "x_long", "y_short", "y_long", "x_em
             \* x one byte short and y one byte long at once (the point as a whole has the right size)
             "x_short_y_long",
             \* the right coordinate behind 256 zero bytes (a width that is right modulo 256)
-            "x_long_256"}
-ModApplies(kt, m) == kt # "ed" \/ m \in {"none", "x_short", "x_long", "x_empty", "x_not_base64", "x_short_shadowed", "x_long_256"}
+            "x_long_256",
+            \* a coordinate one byte short whose TEXT has the right length (a line break inside it); the curve / key type name in
+            \* another letter case together with a short coordinate; a coordinate text that only decodes after JSON unescaping
+            "x_short_linebreak", "x_short_name_case", "x_escaped_text"}
+ModApplies(kt, m) == kt # "ed" \/ m \in {"none", "x_short", "x_long", "x_empty", "x_not_base64", "x_short_shadowed", "x_long_256",
+                                             "x_short_linebreak", "x_short_name_case", "x_escaped_text"}
 
 JwkCases == {[kind |-> "jwk", kt |-> kt, shape |-> sh, mod |-> m] : kt \in KeyTypes,
                sh \in {"any", "normal", "x_leading_zero", "y_leading_zero", "x_two_leading_zeros", "both_leading_zero"}, m \in JwkMods}
